@@ -238,7 +238,7 @@ def gen_grid(rng, index):
 
 EDGE_YEARS = [1968, 1969, 1970, 1971, 1972, 1900, 1899, 1901, 2000, 1999,
               2001, 2100, 2024, 2023, 2038, 1600, 400, 4, 1, 0, -1, -4, 9999,
-              10000]
+              10000, 1800, 2200, 2020, 2015]
 EDGE_OFFSETS = [0, 1, -1, 330, -210, 720, -720, 1439, -1439, 1440, -1500,
                 5999]
 
@@ -255,7 +255,8 @@ def gen_edges(rng, index):
     zones = [(0, 0, 0), (-19800, -23400, 1), (12600, 9000, 1)]
     steps = [{"k": "pert", "act": ["tzset", variant % 3]},
              {"k": "pert", "act": ["dst", variant % 2]}]
-    days = [(1, 1), (2, 28), (3, 1), (12, 30)]
+    # (ISO week-years begin between 29 December and 4 January)
+    days = [(1, 1), (1, 3), (2, 28), (3, 1), (12, 29), (12, 30)]
     if model.days_in_month(mode, 2, year) >= 29:
         days.append((2, 29))
     if model.days_in_month(mode, 12, year) >= 31:
